@@ -197,7 +197,11 @@ def one_trace(tid, hist, fix, eol, triple, eol_in, d, other=None):
     if other is not None:
         flong = os.path.join(d, 'long%d.x12' % tid)
         with open(flong, 'w', encoding='ascii', newline='') as f:
-            f.write(concretise(other, triple, eol_in))
+            # the earlier file is written under ANOTHER encoding (every other time with the line break itself as terminator):
+            # nothing decided while normalising one file may carry over to the next
+            t_other, e_other = [(('\n', '*', ':'), ''), (TRIPLES[(TRIPLES.index(tuple(triple)) + 1) % 3] if tuple(triple) in TRIPLES else TRIPLES[0], '\n'),
+                                (('\n', '|', '>'), ''), (tuple(triple), eol_in)][tid // 4 % 4]
+            f.write(concretise(other, t_other, e_other))
         outl, excl = run_norm(opts + [flong])
         both, excb = run_norm(opts + [flong, fin])
         c1 = os.path.join(d, 'm1_%d.x12' % tid)
